@@ -166,3 +166,25 @@ Definition C10mk_varassign_recombines_full : Prop :=
 Theorem C10mk_varassign_recombines_refuted : ~ C10mk_varassign_recombines_full.
 Proof. exact varassign_recombines_refuted. Qed.
 Print Assumptions C10mk_varassign_recombines_refuted.
+
+(* What does hold for EVERY line that matchVarassign accepts (the part of the law
+   that involves matchVarassign's own pieces): the line is [#] ++ pre ++ comment
+   ("#" only for a commented assignment, comment with its leading '#'), and the
+   unescaped pre is head ++ value ++ blanks, where head ++ value is the main part of
+   the split result and the blanks are spaceBeforeComment (which matchVarassign
+   moves into the alignment when the value is empty). *)
+Theorem C10mk_varassign_value_comment_recombine : forall (text : str) (a : varassign),
+  parse_varassign text = Ok (Some a) ->
+  exists head pre sp,
+    text = (if va_commented a then [35] else []) ++ pre ++ comment_tail (va_split a) /\
+    unescape_hash pre = head ++ va_value a ++ sp /\
+    sr_main (va_split a) = head ++ va_value a /\
+    forallb is_hspace sp = true /\
+    (va_value a <> [] -> sp = sr_space_before_comment (va_split a)).
+Proof. exact varassign_value_comment_recombine. Qed.
+Print Assumptions C10mk_varassign_value_comment_recombine.
+
+(* the fuel of the matchVarassign model always suffices *)
+Theorem C10mk_varassign_fuel : forall text : str, parse_varassign text <> OutOfFuel.
+Proof. exact varassign_fuel. Qed.
+Print Assumptions C10mk_varassign_fuel.
